@@ -29,7 +29,10 @@ import (
 const stuckBound = 6 * time.Second
 
 // quietDial opens a WebSocket that nobody reads from, with a small receive buffer.
-func quietDial(wsu string) (*websocket.Conn, error) {
+func quietDial(wsu string) (*websocket.Conn, error) { return quietDialBuf(wsu, 4096) }
+
+// quietDialBuf: rcvbuf 0 leaves the kernel's default receive buffer (a peer that will wake up again and read at full speed).
+func quietDialBuf(wsu string, rcvbuf int) (*websocket.Conn, error) {
 	d := websocket.Dialer{HandshakeTimeout: 3 * time.Second, ReadBufferSize: 1024,
 		NetDial: func(network, addr string) (net.Conn, error) {
 			c, err := net.DialTimeout(network, addr, 3*time.Second)
@@ -151,7 +154,8 @@ func runStuckScenario(bin, scenario string, round int) stuckOutcome {
 			}
 		}
 	}()
-	stuck, err := quietDial(wsURL(srv, codes[0], "recvA1", "receiver"))
+	rcvbuf, nflood := 4096, 420
+	stuck, err := quietDialBuf(wsURL(srv, codes[0], "recvA1", "receiver"), rcvbuf)
 	if err != nil {
 		o.Trouble = "dial stuck peer: " + err.Error()
 		return o
@@ -172,7 +176,7 @@ func runStuckScenario(bin, scenario string, round int) stuckOutcome {
 	}
 	// fill the path to the stuck peer: addressed messages of ~48 KiB until well beyond what the kernel buffers and
 	// the connection's queue (256 messages) can hold; the queue drops what does not fit, so the flood itself is cheap
-	for i := 0; i < 420; i++ {
+	for i := 0; i < nflood; i++ {
 		env := appEnv("recvA1", 100000+i, 48000)
 		if err := r2.sendEnv(env); err != nil {
 			o.Trouble = "flood: " + err.Error()
@@ -309,7 +313,8 @@ func runStuckScenario(bin, scenario string, round int) stuckOutcome {
 func StuckPeer(args []string) {
 	fs := flag.NewFlagSet("stuck-peer", flag.ExitOnError)
 	bin := fs.String("thruserv", "", "thruserv binary")
-	rounds := fs.Int("rounds", 1, "rounds of the three scenarios")
+	rounds := fs.Int("rounds", 1, "rounds of the scenarios")
+	scen := fs.String("scenarios", "reconnect,leave,expiry,expiry", "comma separated scenarios")
 	shard := fs.Int("shard", 0, "shard")
 	shards := fs.Int("shards", 1, "shards")
 	fs.Parse(args)
@@ -318,7 +323,7 @@ func StuckPeer(args []string) {
 	n := 0
 	trouble := 0
 	for round := 0; round < *rounds; round++ {
-		for _, sc := range []string{"reconnect", "leave", "expiry", "expiry"} {
+		for _, sc := range strings.Split(*scen, ",") {
 			n++
 			if (n-1)%*shards != *shard {
 				continue
